@@ -134,6 +134,8 @@ type Gen struct {
 	labels    []glabel
 	hidden    []glabel // labels in scope that may not be jumped to from here (see tryStmt)
 	noArgs    int      // inside strict eval code: `arguments` is not used (known finding)
+	inCase    bool     // directly inside a switch case list (not inside a loop nested in it)
+	tryDepth  int      // enclosing try statements (any part) inside the current function
 	nfuncs    int
 	nfresh    int
 	inEval    int
@@ -178,6 +180,7 @@ func NewGen(r Rand, o GenOpts) *Gen {
 	o.ForwardRefDefaults = true
 	o.DeclsInTryBlock = true
 	o.NamedFuncExprNonSimple = true // C02-callee-binding-dropped (5e98a3b)
+	o.ParamDefaultNames = true      // C02-param-default-name (3eb439e)
 	return &Gen{r: r, o: o}
 }
 
